@@ -97,6 +97,7 @@ pub struct World {
     /// per resolution bookkeeping (reset by `begin_resolution`)
     pub res_calls: u64,
     pub res_faults: u64,
+    pub res_view_faults: u64,
     pub fetch_short: u64,
     pub fetch_reqs: Vec<Vec<RefKey>>,
     pub fetch_answers: Vec<Vec<RefKey>>,
@@ -126,6 +127,7 @@ impl World {
             cancel_at_tick: None,
             res_calls: 0,
             res_faults: 0,
+            res_view_faults: 0,
             fetch_short: 0,
             fetch_reqs: vec![],
             fetch_answers: vec![],
@@ -139,6 +141,10 @@ impl World {
     pub fn fire(&mut self, kind: &'static str) {
         *self.fired.entry(kind).or_insert(0) += 1;
         self.res_faults += 1;
+        // faults that change what the resolver is shown of the ledger (latency and injected errors do not)
+        if matches!(kind, "stale" | "byz" | "stall" | "churn-spend" | "churn-create" | "churn-tip") {
+            self.res_view_faults += 1;
+        }
     }
 
     pub fn probe(&mut self, kind: &'static str) {
@@ -153,6 +159,7 @@ impl World {
     pub fn begin_resolution(&mut self) {
         self.res_calls = 0;
         self.res_faults = 0;
+        self.res_view_faults = 0;
         self.fetch_short = 0;
         self.fetch_reqs.clear();
         self.fetch_answers.clear();
